@@ -101,8 +101,14 @@ package bcl
 //@ func newLineCalc
 //@   ensures result != nil && len(result.lfs) == 0
 //
+// representation invariant of the line table: strictly increasing offsets. It is
+// established by newLineCalc, preserved by add (whose caller must append beyond the
+// last entry) and assumed by the readers; nothing else writes lfs (except Load,
+// which rebuilds the table from a file and is outside this invariant).
+//@ invariant owned table_increasing (lc *lineCalc): forall i int, j int :: 0 <= i && i < j && j < len(lc.lfs) ==> lc.lfs[i] < lc.lfs[j]
+//
 //@ func (*lineCalc).lineColAt
-//@   ensures counting: (forall i int, j int :: 0 <= i && i < j && j < len(lc.lfs) ==> lc.lfs[i] < lc.lfs[j]) ==> exists j int :: 0 <= j && j <= len(lc.lfs) &&
+//@   ensures counting: exists j int :: 0 <= j && j <= len(lc.lfs) &&
 //@       (forall i int :: 0 <= i && i < j ==> lc.lfs[i] < pos) &&
 //@       (forall i int :: j <= i && i < len(lc.lfs) ==> lc.lfs[i] >= pos) &&
 //@       result0 == j + 1 && result1 == (j == 0 ? pos + 1 : pos - lc.lfs[j-1])
@@ -110,15 +116,13 @@ package bcl
 //
 //@ func (*lineCalc).add
 //@   requires after_last: forall k int :: 0 <= k && k < len(lc.lfs) ==> lc.lfs[k] < prefix
-//@   requires increasing: forall i int, j int :: 0 <= i && i < j && j < len(lc.lfs) ==> lc.lfs[i] < lc.lfs[j]
 //@   ensures grows: len(lc.lfs) >= old(len(lc.lfs))
 //@   ensures old_kept: forall k int :: 0 <= k && k < old(len(lc.lfs)) ==> lc.lfs[k] == old(lc.lfs[k])
 //@   ensures only_newlines: forall k int :: old(len(lc.lfs)) <= k && k < len(lc.lfs) ==>
 //@       prefix <= lc.lfs[k] && lc.lfs[k] < prefix + len(s) && s[lc.lfs[k]-prefix] == '\n'
 //@   ensures all_newlines: forall i int :: 0 <= i && i < len(s) && s[i] == '\n' ==>
 //@       (exists k int :: old(len(lc.lfs)) <= k && k < len(lc.lfs) && lc.lfs[k] == prefix + i)
-//@   ensures increasing: forall i int, j int :: 0 <= i && i < j && j < len(lc.lfs) ==> lc.lfs[i] < lc.lfs[j]
-//@   loop 1 invariant grows: len(lc.lfs) >= old(len(lc.lfs)) && 0 <= $iter && $iter <= len(s)
+//@   loop 1 invariant grows: len(lc.lfs) >= old(len(lc.lfs)) && 0 <= $iter && $iter <= len(s) && (arr(lc.lfs) == old(arr(lc.lfs)) || isnew(lc.lfs))
 //@   loop 1 invariant old_kept: forall k int :: 0 <= k && k < old(len(lc.lfs)) ==> lc.lfs[k] == old(lc.lfs[k])
 //@   loop 1 invariant only_newlines: forall k int :: old(len(lc.lfs)) <= k && k < len(lc.lfs) ==>
 //@       prefix <= lc.lfs[k] && lc.lfs[k] < prefix + $iter && s[lc.lfs[k]-prefix] == '\n'
